@@ -36,7 +36,7 @@ template <class S> static void random_step(Ops<S>& o) {
   else if (hit(Wpurge)) o.purge();
   else if (hit(Wsan)) o.sanity();
   else if (hit(Wvec)) o.set_vec();
-  else if (hit(Wdisp)) o.display();
+  else if (hit(Wdisp)) { if (R->below(6) == 0) o.fixture_display(); else o.display(); }
   else if (hit(Weval)) o.eval();
   else if (hit(Wtwin)) o.twin();
   else if (hit(Wfatal)) o.fatal_op();
@@ -93,7 +93,7 @@ template <class S> static void large_vectors() {
   Model<S> m; Ops<S> o(m);
   o.init("big", "radiation_integrated_intensity");
   auto& in = m.cur();
-  for (int len : {1000, 100000, 3, 65536, 0, 25}) {
+  for (int len : {1000, 300, 100000, 65536, 70, 65, 3, 0, 129, 128, 25}) {
     for (const char* n : {"vec_amp", "vec_mean", "vec_stdev"}) {
       std::vector<S> v((size_t)len);
       for (auto& x : v) x = (S)(n[4] == 'a' ? R->uni(1.0L, 10.0L) : n[4] == 'm' ? R->uni(0.0L, 1.0L) : R->uni(0.02L, 0.5L));
@@ -103,7 +103,7 @@ template <class S> static void large_vectors() {
     }
     compare_selected(m, "C11", "set_vec-leak", "after setting three vectors of length " + std::to_string(len));
     o.sanity();
-    if (len > 0) { o.eval(ev_index("source_u/S1")); o.eval(ev_index("exact_u/S1")); }
+    if (len > 0) { o.eval(ev_index("source_u/S1")); o.eval(ev_index("exact_u/S1")); o.twin(); }   // and a fresh instance with the same vectors reproduces them
     LOG.count("large_vector_lengths", 1);
   }
   o.init_param();
@@ -273,7 +273,9 @@ int main(int argc, char** argv) {
   for (auto& s : catalogue()) if (!s.fixture) SOLS.push_back(s.name);
   // pool of 32 points: 16 in (0.1,1.9)^4, 8 in (-2,2)^4, 8 with coordinates spread over three decades 10^U(-3,0) (thin layers next to a wall / an axis)
   // and one coordinate exactly 0 in two of them; all double-representable so both precisions see the same arguments
-  { int k = 0; for (auto& p : POOL) { for (auto& c : p) c = (long double)(double)(k < 16 ? r.uni(0.1L, 1.9L) : k < 24 ? r.uni(-2.0L, 2.0L) : powl(10.0L, r.uni(-3.0L, 0.0L))); if (k >= 30) p[r.below(4)] = 0; k++; } }
+  { int k = 0; for (auto& p : POOL) { for (auto& c : p) c = (long double)(double)(k < 16 ? r.uni(0.1L, 1.9L) : k < 24 ? r.uni(-2.0L, 2.0L) : powl(10.0L, r.uni(-3.0L, 0.0L))); if (k >= 30) p[r.below(4)] = 0; k++; }
+    // eight of the generic points are copies of another pool point with exactly ONE coordinate changed (same place at another time, same x-y at another z, ...)
+    for (int j = 0; j < 8; j++) { for (int c = 0; c < 4; c++) POOL[8 + j][c] = POOL[j % 4][c]; POOL[8 + j][j % 4] = (long double)(double)r.uni(0.1L, 1.9L); if (j >= 4) POOL[8 + j][3 - j % 4] = POOL[8 + j][j % 4]; } }
   if (mode == "random") run_random(n);
   else if (mode == "sweep") { sweep<double>(); sweep<long double>(); large_vectors<double>(); large_vectors<long double>(); }
   else if (mode == "many") { many_handles<double>((int)n); many_handles<long double>((int)n); }
